@@ -863,6 +863,9 @@ fn resolve_names_item_decl(ctx: &mut StaticsContext, symbol_table: &SymbolTable,
                 for variant in &enum_def.variants {
                     for field in &variant.fields {
                         resolve_names_typ(ctx, &symbol_table, &field.ty, false);
+                        if let Some(default_val) = &field.default_val {
+                            resolve_names_expr(ctx, &symbol_table, default_val);
+                        }
                     }
                 }
             }
